@@ -84,7 +84,7 @@ theorem applyAfter_reg (w : World) (op : Nat) (a : After) (hI : RegInv w) : RegI
   | none => exact hI
   | decDisp => exact regInv_objs hI rfl
   | postDone => exact regInv_objs hI rfl
-  | timerDone k rep =>
+  | timerDone k rep cb =>
     simp only [applyAfter]
     cases hg : getObj w k with
     | none => exact hI
@@ -145,7 +145,7 @@ theorem pollDispatch_reg (w w' : World) (op : Nat) (rest : List K) (hI : RegInv 
           | (cases h
              rename_i hc
              simp only [Bool.and_eq_true, beq_iff_eq] at hc
-             apply regInv_objs (w := setObj { w with pending := w.pending - 1 } { o with evR := false, tstate := .ready, cancelledRep := (o.cancelledRep && info.kind != OpKind.timerRep) }) _ rfl
+             apply regInv_objs (w := setObj { w with pending := w.pending - 1 } { o with evR := false, tstate := .ready }) _ rfl
              apply regInv_setObj (regInv_objs hI rfl)
              exact regOk_timer hc.1.1)
           | (cases h; exact regInv_objs (delRead_reg hI) rfl)
@@ -242,7 +242,7 @@ theorem step_reg (w w' : World) (e : Ev) (hI : RegInv w) (h : step w e = some w'
         | (cases h
            rename_i hc _
            simp only [Bool.or_eq_true, Bool.not_eq_true', bne_iff_ne, ne_eq, not_or, Decidable.not_not] at hc
-           apply regInv_objs (w := setObj (unsetPending w o) { o with evR := false, cancelled := true, cancelledRep := true, tstate := .ready }) _ rfl
+           apply regInv_objs (w := setObj (unsetPending w o) { o with evR := false, cancelled := true, cancels := o.cancels + 1, tstate := .ready }) _ rfl
            apply regInv_setObj (regInv_objs hI rfl)
            exact regOk_timer hc.2)
   · rename_i k rest b hst
